@@ -467,7 +467,8 @@ def close_contract():
                  Clause("implies(not closed0, ends_done == m and cleanups_done == m and forall(j, 0 <= j and j < m, end_ok(j)))", "every-verdict-asked-once-in-order-then-every-check-cleaned-up", props=["C20", "C05"]),
                  Clause("this._is_closed == True", "marked-closed", props=["C20"])],
         raises={"CheckError": [Clause("not closed0 and ends_done >= 1 and not end_ok(ends_done - 1) and forall(j, 0 <= j and j < ends_done - 1, end_ok(j))", "raised-by-the-first-failing-end-verdict", props=["C20", "C05"]),
-                               Clause("cleanups_done == m", "cleanup-runs-for-every-check-even-if-a-verdict-raised", props=["C20"])]},
+                               Clause("cleanups_done == m", "cleanup-runs-for-every-check-even-if-a-verdict-raised", props=["C20"]),
+                               Clause("this._is_closed == True", "closed-also-when-a-verdict-raised:-a-second-close()-asks-no-check-again", props=["C20"])]},
         loops={0: LoopSpec(invariants=["ends_done == _i0", "cleanups_done == 0", "forall(j, 0 <= j and j < _i0, end_ok(j))"], havoc={"check_name": STR}, ghost_havoc={"ends_done": INT}),
                1: LoopSpec(invariants=["cleanups_done == _i1"], havoc={"check": CHECK}, ghost_havoc={"cleanups_done": INT})},
         expect=["return", "CheckError"], n_loops=2, modifies=["Reader._is_closed"])
@@ -1159,3 +1160,27 @@ def unit_reader_close():
                 "assumptions": ["BaseValidator.close is used through its verified contract; reset() of a check is abstract and protocol-monitored",
                                 "Reader.rows sets _has_reset_checks right after resetting every check (verified: the reset-first obligations of validio.Reader.rows)"]}
     return ProofUnit("validio.Reader.close", "Reader.close: a reader whose rows() generator never started resets every check before the end-of-data verdicts (F-14)", ["C08", "C05", "C20", "C10"], make, None)
+
+
+# ---------------------------------------------------------------- BaseValidator.__exit__ : close() always; an error already under way is not replaced
+def unit_validator_exit():
+    def mk(body_failed):
+        def setup(ex, st):
+            self = Ref("Reader"); st.heap[self.oid] = {}
+            exc_type = Opaque() if body_failed else None
+            st.frames[-1].env.update({"self": self, "exc_type": exc_type, "exc_val": Opaque() if body_failed else None, "exc_tb": None})
+            st.ghost.update({"this": self, "closed": 0, "close_failed": False})
+        def m_close(ex, st, recv, args, kw):
+            st.ghost["closed"] = Sym(INT, G(st, "closed") + 1)
+            sb = st.copy(); sb.ghost["close_failed"] = True; yield from raise_new(ex, sb, "CheckError")
+            yield st, None
+        c = Contract("validio.BaseValidator.__exit__", setup,
+                returns=[Clause("closed == 1", "close()-(end-verdicts-and-cleanup)-runs-exactly-once-when-a-with-block-ends", props=["C20", "C08"]),
+                         Clause(lambda ex, st: Sym(BOOL, z3.BoolVal((not st.ghost["close_failed"]) or body_failed)), "a-failing-end-verdict-is-swallowed-only-when-the-block-already-ends-with-an-error-(which-then-propagates:-the-result-is-not-truthy)", props=["C06", "C18", "C20"]),
+                         Clause(lambda ex, st: Sym(BOOL, z3.BoolVal(not st.ghost["__result__"])), "never-suppresses-the-error-of-the-block", props=["C06", "C18", "C10"])],
+                raises={"CheckError": [Clause(lambda ex, st: Sym(BOOL, z3.BoolVal(bool(st.ghost["close_failed"]) and not body_failed)), "a-failing-end-verdict-is-raised-when-the-block-ended-normally", props=["C05", "C20"])]},
+                expect=["return"] + ([] if body_failed else ["CheckError"]), raises_only_props=["C10"])
+        return {"contract": c, "label": "block ended with an error" if body_failed else "block ended normally", "callees": {"ref:Reader.close": m_close},
+                "assumptions": ["close() of the concrete validator is used through its verified contract (it may raise a CheckError)"]}
+    def make(ctx): return [mk(False), mk(True)]
+    return ProofUnit("validio.BaseValidator.__exit__", "with-statement exit: close() once; the error of the block is never replaced by a CheckError of the end verdicts (F-18)", ["C20", "C06", "C18", "C08", "C05", "C10"], make, None)
